@@ -86,6 +86,27 @@ pub fn run(rep: &mut Report) {
             if summ(&bytes) != summ(&bytes2) {
                 rep.fail("oracle", None, "summary lines differ after a round trip".into(), case.clone());
             }
+            // C05_second_export_equals_first: byte for byte (function records come out in hash-map
+            // order, which the model takes as a parameter: exact bytes only with <= 1 function per file)
+            if rs.iter().all(|r| r.2.functions.len() <= 1) {
+                rep.count("second_export.byte_equal_checked");
+                if bytes2 != bytes {
+                    rep.fail("oracle", None, "second export differs from the first byte for byte".into(),
+                             json!({"case": case, "second_hex": hex(&bytes2)}));
+                }
+            } else if bytes2 == bytes {
+                rep.count("second_export.byte_equal_many_functions");
+            } else {
+                rep.count("second_export.function_order_differs");
+            }
+            // C05_iterate: a second re-import returns what the first returned
+            let b3 = bytes2.clone();
+            let got2 = show_outcome(&guarded(move || parse_lcov(b3, true)));
+            rep.count("iterate.second_reimport");
+            if got2 != got {
+                rep.fail("oracle", None, "the second re-import differs from the first (export/import is not a fixed point after one round)".into(),
+                         json!({"case": case, "first": got, "second": got2}));
+            }
         }
         reqs.push(format!("lcov.parse 1 {}", hex(&bytes)));
         impls.push(got);
